@@ -48,6 +48,11 @@ CLAIMED = {
    note="Trusted: Coq kernel, extraction, harness; SystemTime/duration_since arithmetic is modelled in Z nanoseconds; -daystart and birth time not covered.",
    technique="Coq proof (integer division facts) + differential correspondence with injected clock",
    design="5 C15"),
+ "C12": dict(
+   text="Coq theorem for the engine half: for every sequence of one-character tests and '.*' (what a glob translates to) and every subject, Oniguruma-style first-match backtracking followed by the full-length test equals whole-string fnmatch (some way of matching the entire string exists) - no bound on lengths or stars. The parser half (glob text -> regex text -> Oniguruma's bracket reading) is an executable Coq model, not yet proved equal to a reference, validated on every run against the implementation (regex text and verdict through the hook) and against glibc fnmatch on the guarded domain, exhaustively over short patterns x subjects.",
+   note="Partial: parser half validated, not proved. Oniguruma is modelled. glibc fnmatch is the executable reference where the property fixes the answer (no backslash/leading ^ in brackets, no collating symbols; case folding of ranges/classes left open).",
+   technique="Coq proof (engine: induction with the shift lemma) + exhaustive small-domain differential correspondence",
+   design="5 C12"),
 }
 ALL = ["C%02d" % i for i in range(1, 21)]
 def main():
